@@ -39,4 +39,26 @@ CInit == org = 256 /\ prog \in CoverProgs
 CNext == UNCHANGED vars
 CDump == IF WellFormed /\ ValidStream({org}) THEN PrintT(<<"BEH", ToJson(Out({org}))>>)
          ELSE PrintT(<<"BAD", ToJson([ids |-> [i \in 1..Len(prog) |-> prog[i].f.id]])>>)
+
+\* ---------------------------------------------------------------------------------- page-edge images
+\* Every instruction whose target computation depends on its own address (4004: JCN, ISZ with the in-page rule of the
+\* address of the NEXT instruction, FIN/JIN; 6800: all relative branches and BSR) is placed with its first byte at page
+\* offsets FC, FD, FE, FF and 00 of a page boundary (4004: 1FC..200 and EFC..F00; 6800: 01FC..0200 and, for BRA / BSR /
+\* BNE, FEFC..FF00), between NOPs, once per target item before and behind it.  Only the combinations the ISA table
+\* calls legal are images (e.g. an ISZ at xFE may only point into the FOLLOWING page).  A single-chunk image cannot
+\* wrap from $FFFF to $0000, so the wrap-around of 6800 branches is not generated.
+PcSensitive == {f \in FormsG : (f.tf # 0 /\ f.flds[f.tf].k \in {"rel", "page", "relw"}) \/ f.id \in {"FIN", "JIN"}}
+FirstVariant(f) == CHOOSE v \in Variants : v.f = f /\ \A w \in Variants : w.f = f => OpByte(v) <= OpByte(w)
+EdgeProg(f, j) == <<Nop, Nop, WithTarget(FirstVariant(f), j), Nop, Nop, Nop, Nop, Ret>>
+Main3 == {"BRA rel", "BSR rel", "BNE rel"}
+EdgeBases(f) == IF IsaName = "4004" THEN {256, 3584} ELSE IF f.id \in Main3 THEN {256, 65024} ELSE {256}
+EdgeTargets(f) == IF f.tf = 0 THEN {1}
+                  ELSE IF IsaName = "4004" THEN {1, 2, 4, 5, 6, 7, 8}
+                  ELSE IF f.id \in Main3 THEN {1, 4, 7} ELSE {2, 5}
+EdgeOffsets == {252, 253, 254, 255, 256}
+
+EInit == \E f \in PcSensitive : \E b \in EdgeBases(f) : \E o \in EdgeOffsets : \E j \in EdgeTargets(f) :
+           /\ org = b + o - 2
+           /\ prog = EdgeProg(f, j)
+EDump == (WellFormed /\ ValidStream({org})) => PrintT(<<"BEH", ToJson(Out({org}))>>)
 =============================================================================
